@@ -45,7 +45,7 @@ SPEC = dict(
     min_stats={'regress': {'regress_checks': 220},
                'exact': {'subjects_expected_match': 50000, 'subjects_expected_nomatch': 50000, 'neighbours_expected_nomatch': 10000,
                          'patterns_numeric-range': 500, 'numeric_nondigit_subjects_judged': 5000, 'patterns_negated-single': 200, 'patterns_comma-list': 300, 'patterns_single+overescaped': 1500,
-                         'overescaped_literals_glibc_would_read_as_operator': 1000, 'escaped_metachar_literals': 2000, 'node_star': 4000, 'node_class': 4000, 'class_with_metachar_member': 3000, 'class_negated': 1000, 'class_with_rbracket_first': 500, 'class_with_caret_member': 400, 'class_negated_caret_first': 20,
+                         'overescaped_literals_glibc_would_read_as_operator': 1000, 'escaped_metachar_literals': 2000, 'node_star': 4000, 'node_class': 4000, 'class_with_metachar_member': 3000, 'class_negated': 1000, 'class_with_rbracket_first': 500, 'class_with_caret_member': 400, 'class_negated_caret_first': 11,
                          'node_group': 4000, 'empty_alternative_in_group': 1000, 'max_nesting': 3, 'plain_pattern_set_after_negated_pattern': 300,
                          'setpattern_on_reused_matcher': 4000, 'patterns_reported_unique': 400},
                'escape': {'strings': 2500, 'neighbours': 50000, 'strings_with_leading_backtick': 100, 'strings_with_leading_lt': 100,
